@@ -448,7 +448,7 @@ PART_MARK = re.compile(r'@([A-Za-z0-9_]+(?:,[A-Za-z0-9_]+)*)\s*$')
 
 def weave_split(unit, tmpl_rel, blk):
     """Split proof (DESIGN 11.16).  `//@fn ... parts=a,b,c` (placed at module level, outside any impl): the function's real
-    text is woven once per part as `<fn>__<part>` in a nested module `p_<part>`, each copy with the common precondition, the
+    text is woven once per part as `<fn>__<part>` in a sibling module `<parent>__p_<part>`, each copy with the common precondition, the
     postcondition clauses marked `@<part>` (unmarked clauses go to every part) and the hooks enabled for it (`//@parts`).
     The function other code calls is a body-less stub whose contract is the common precondition and the union of all
     postcondition clauses - assembled here, mechanically, from the same lines.  Sound because every copy is the same code
